@@ -155,3 +155,33 @@ func vCatch(f func()) (panicked bool) {
 }
 
 func vSymbolic() bool { return false }
+
+// ---- file-system helpers (the symbolic engine uses its fs model) ----
+
+func vTempDir() string {
+	d, err := os.MkdirTemp("", "verif-sod-")
+	if err != nil {
+		panic(err)
+	}
+	vTmpDirs = append(vTmpDirs, d)
+	return d
+}
+
+func vFileExists(path string) bool { return isFileAndExist(path) }
+
+func vRemoveFile(path string) { os.Remove(path) }
+
+func vListDir(dir string) []string {
+	ents, err := os.ReadDir(dir)
+	if err != nil {
+		return nil
+	}
+	var out []string
+	for _, e := range ents {
+		out = append(out, e.Name())
+	}
+	return out
+}
+
+func vLockHazards(kind string) int { return 0 }
+func vLocksHeld() int              { return 0 }
